@@ -127,7 +127,7 @@ class EditWorld(object):
         self.oracles = set(oracles)
         r = random.Random(cfg["data_seed"])
         self.data = bridge.make_data(r, cfg["n"], samples=cfg["samples"], grid=cfg["grid"], style=cfg["style"],
-                                     outlier_prob=cfg["outlier_prob"], hetero=bool(cfg.get("hetero")))
+                                     outlier_prob=cfg["outlier_prob"], hetero=bool(cfg.get("hetero")), sample_levels=cfg.get("levels"))
         self.values = {d.idx: np.asarray(d.value) for d in self.data}
         self.out_prior = {d.idx: ((d.outlier_prob, d.outlier_prob_not) if d.outlier_prob != 0 else None) for d in self.data}
         self.grid_size = self.data[0].grid_size
@@ -612,8 +612,12 @@ class EditWorld(object):
                 return
         if "c06" in self.oracles:
             f = m.forest()
-            fresh = bridge.build_tree(f, self.data)
-            fresh.update()
+            with bridge.unmemoised() as um:
+                # from scratch: no value comes out of the process-wide caches the history has filled
+                fresh = bridge.build_tree(f, self.data)
+                fresh.update()
+                if um.saved:
+                    self.probe("rebuild_bypassed_memoisation")
             na, nb = monitors.node_arrays(t), monitors.node_arrays(fresh)
             for k in nb:
                 if k not in na:
